@@ -31,6 +31,8 @@ RULE = ("Hypothesis-generated envelope histories (one-sided or two-sided disjoin
 ASSUMPTIONS = [
     "mock providers; reordering/delaying is applied to id-style sides only, as the statement says; path-style sides get duplicates, singleton batches, walks and injections",
     "envelope hazards PATH_REUSE, DIRMOVE_ISOLATED, DIRMOVE_TOMB, XSIDE as for C03/C04",
+    "LATE_WALK_AFTER_DELETE: a tree listing taken earlier is not handed to the engine after a user deleted something in between (open finding KF-48: the stale 'exists' events resurrect the deleted objects on the other side)",
+    "STALE_PATHSTYLE is strict here (every object touched in the window counts, consumed or not): batches are split into single deliveries",
     "LATE_DUP_PATHSTYLE: a stale second copy of an event (delivered after later events) is generated for id-style sides only; path-style sides get immediate duplicates",
     "the id/id exception of DIRMOVE_ISOLATED (create inside a folder renamed in the same window) covers new files only here (open finding KF-34: a folder-rename event delivered after the event of a sub-folder made under the new name leaves a stale folder)",
     "WALK_PATHSTYLE_BUSY: a walk replay of a path-style side is generated at quiet points only (open finding KF-32: a walk that overtakes pending rename events of a path-style side leaves a stale copy)",
@@ -62,7 +64,12 @@ def gen(d, tier):
             ws = d.choice(ids)
             if ws in pend:
                 del pend[ws]
-                acts.append(["walk_late", ws])
+                if _deleted_since_snap(acts, ws):
+                    # hazard LATE_WALK_AFTER_DELETE (open finding KF-48): a stale listing is not delivered after
+                    # something was deleted since it was taken
+                    world.excluded["LATE_WALK_AFTER_DELETE"] += 1
+                else:
+                    acts.append(["walk_late", ws])
             else:
                 pend[ws] = True
                 acts.append(["walk_snap", ws])
@@ -83,16 +90,32 @@ def gen(d, tier):
     acts, world = gen_history(d, cfg, sides=sides, n_ops=(3, 8) if tier == "quick" else (3, 14), with_base=True,
                               w_extra=2 if mode == "mixed" else 0, extra=extra, world_init=_strict)
     for ws in sorted(world.__dict__.get("snap_pending", {})):
+        if _deleted_since_snap(acts, ws):
+            world.excluded["LATE_WALK_AFTER_DELETE"] += 1
+            continue
         acts.append(["walk_late", ws])
         acts.append(["settle"])
     script = [d.int(0, 7) for _ in range(d.int(4, 24))]
     return {"cfg": cfg, "acts": acts, "script": script, "meta": {"excluded": dict(world.excluded)}}
 
 
+def _deleted_since_snap(acts, ws):
+    for a in reversed(acts):
+        if a[0] == "walk_snap" and a[1] == ws:
+            return False
+        if a[0] == "u" and a[2] in ("delete", "rmtree"):
+            return True
+    return False
+
+
 def _strict(world):
     # under delayed / reordered delivery, making a FOLDER inside a folder renamed in the same window is an open
     # finding (KF-34) even when both sides are id-style; new files inside it are fine
     world.strict_dirmove = True
+    # event batches are split into single deliveries: an intake step may hand over only the FIRST of two changes to one
+    # object, so the KF-43 fence (path-style side: object leaves its path while an earlier change of it is known but
+    # unsynced) has to cover every object touched in the window
+    world.stale_strict = True
 
 
 def in_domain(trace):
@@ -107,6 +130,9 @@ def in_domain(trace):
             return False
     if any(a[0] in ("walk_snap", "walk_late") and cfg["LR"[a[1]]] == "path" for a in trace["acts"]):
         return False
+    for i, a in enumerate(trace["acts"]):
+        if a[0] == "walk_late" and _deleted_since_snap(trace["acts"][:i], a[1]):
+            return False
     acts = [a for a in trace["acts"] if a[0] not in ("walk", "inject", "walk_snap", "walk_late")]
     sides = (0, 1) if "origin" not in trace["cfg"] else (trace["cfg"]["origin"],)
     return envelope_ok(dict(trace, acts=acts), sides=sides, world_init=_strict)
